@@ -629,7 +629,7 @@ def plan_C16(ctx):
         "(insert/delete/substitute/transpose) of every table name, every table name extended by 1..12 bytes and every proper prefix; checks on the model that the hash lookup equals membership in the "
         "literal table (AutoEqDecl, RoundTrip) and prints what the DOCUMENTED table says; each record is executed on the real "
         "GetHdrType / GetMethodNo (+ Name() and back).  The header parser's use of the classification is covered by C07.")
-    parts = ["edits", "short", "cases", "ext", "rfc"] + ([] if ctx.quick else ["caseslong"])
+    parts = ["edits", "short", "cases", "ext", "rfc", "bytes2"] + ([] if ctx.quick else ["caseslong"])
     for part in parts:
         ctx.tlc("MC_Lookup", simple_cfg("lookup_%s.cfg" % part, ["OffsMod = 65536", 'Part = "%s"' % part], ["AutoEqDecl", "RoundTrip", "Emit"]),
                 workers=8, min_records=1000)
